@@ -218,6 +218,99 @@ def check_rle_encoder_api(rep, tier, rng, drv, run):
     rep.sample({"op": "rle_encops", "case": lines[7][:200]})
 
 
+def _lsb_pack(segs):
+    """reference: values laid out LSB first, one after the other (the Parquet bit-packing order)"""
+    acc, n = 0, 0
+    for v, w in segs:
+        acc |= (v & ((1 << w) - 1)) << n; n += w
+    return acc.to_bytes((n + 7) // 8, "little"), n
+
+
+def check_bit_rw(rep, tier, rng, drv):
+    """Raw bit packing through the bit writer / bit reader pair of core/bitpack.c (nothing in the library calls it):
+    uniform widths 1..32 x counts, mixed write_bit / write_bits / write_bits64 sequences incl. zero-width writes.
+    Oracle: bytes = LSB-first layout of the masked values, bytes_written = ceil(bits/8), the reader returns the
+    masked values, remaining_bits / has_more say what is left.  Also the unpack function-table accessor and
+    carquet_rle_encode_levels (int16 levels) with both level decoders."""
+    lines, exp = [], []
+
+    def add(segs):
+        toks, vals = [], []
+        for kind, v, w in segs:
+            if kind == "b":
+                toks.append("b%d" % (v & 1)); vals.append((v & 1, 1))
+            elif kind == "w":
+                toks.append("w%d:%d" % (v, w)); vals.append((v, w))
+            else:
+                toks.append("q%x:%d" % (v, w)); vals.append((v, w))
+        data, n = _lsb_pack(vals)
+        lines.append(("bitrw " + " ".join(toks)).strip())
+        rem = 8 * len(data) - n
+        exp.append("OK %s %s rem=%d more=%d" % (vlib.hexs(data), ",".join("%x" % (v & ((1 << w) - 1)) for v, w in vals) or "-", rem, 1 if rem else 0))
+    for w in range(1, 33):
+        for cnt in ((1, 2, 5, 8, 9, 33, 64, 70) if tier == "quick" else range(1, 130)):
+            add([("w", rng.getrandbits(32) if rng.random() < 0.7 else (1 << w) - 1, w) for _ in range(cnt)])
+    for w in range(33, 65):
+        add([("q", rng.getrandbits(64), w) for _ in range(rng.choice([1, 3, 9, 17]))])
+    for _ in range(1500 if tier == "quick" else 20000):
+        segs = []
+        for _ in range(rng.randrange(0, 40)):
+            r = rng.random()
+            if r < 0.2:
+                segs.append(("b", rng.getrandbits(1), 1))
+            elif r < 0.8:
+                segs.append(("w", rng.getrandbits(32), rng.choice([0, 1, 7, 8, 9, 10, 11, 23, 24, 25, 31, 32]) if rng.random() < 0.5 else rng.randrange(0, 33)))
+            else:
+                segs.append(("q", rng.getrandbits(64), rng.choice([0, 1, 32, 33, 41, 63, 64]) if rng.random() < 0.5 else rng.randrange(0, 65)))
+        add(segs)
+    import rle_ref
+    for w in list(range(-1, 11)) + [16, 32, 33]:
+        data = bytes(rng.getrandbits(8) for _ in range(max(w, 1) if 0 < w <= 8 else 9))
+        lines.append("getfn %d %s" % (w, vlib.hexs(data)))
+        if 1 <= w <= 8:
+            acc = int.from_bytes(data[:w], "little")
+            exp.append("OK " + ",".join(str((acc >> (i * w)) & ((1 << w) - 1)) for i in range(8)))
+        else:
+            exp.append("OK NULL")
+    nlv = len(lines)
+    lv = []
+    for _ in range(1200 if tier == "quick" else 15000):
+        w = rng.choice([1, 1, 2, 3, 4, 7, 8, 15]) if rng.random() < 0.8 else rng.randrange(1, 16)
+        vs = gen_structured(rng, w)
+        lines.append(("rle_enclvl %d %s" % (w, " ".join(map(str, vs)))).strip()); lv.append((w, vs))
+    impl, p1 = run_sharded(drv, lines)
+    for pr in p1:
+        rep.violation("bit writer / reader / level encoder crashed or sanitizer report: %s" % pr[2][-500:], {"case": pr[3]})
+    for li, a, e in zip(lines[:nlv], impl[:nlv], exp):
+        rep.count(li, nontrivial=len(li) > 8)
+        if a != e:
+            what = ("the raw bit writer / reader pair does not return the values written in the Parquet LSB-first layout"
+                    if li.startswith("bitrw") else "carquet_get_bitunpack8_fn returns a function that does not unpack that width")
+            rep.violation("%s: got %s, expected %s" % (what, a[:160], e[:160]), {"case": li, "impl": a[:3000], "expected": e[:3000]})
+    return lines[nlv:], impl[nlv:], lv
+
+
+def check_level_encoder(rep, tier, rng, drv, run, lines, impl, lv):
+    mlines = ["rle_enc %d %s" % (w, " ".join(map(str, vs))) for w, vs in lv]
+    model, p2 = run_sharded(run, mlines)
+    for pr in p2:
+        rep.tie_broken("model runner died: %s" % pr[2][-300:], pr[3])
+    for li, a, (w, vs), m in zip(lines, impl, lv, model):
+        rep.count(li, nontrivial=len(vs) > 1)
+        t = a.split()
+        vstr = ",".join(map(str, vs))
+        if len(t) != 4 or t[0] != "OK":
+            rep.violation("carquet_rle_encode_levels failed on legal levels: %s" % a[:200], {"case": li, "impl": a[:2000]}); continue
+        nbytes = 0 if t[1] == "-" else len(t[1]) // 2
+        want1, want2 = "%d:%s" % (len(vs), vstr), "%d/%d:%s" % (len(vs), 4 + nbytes, vstr)
+        if t[2] != want1 or t[3] != want2:
+            rep.violation("int16 levels do not survive carquet_rle_encode_levels + decode_levels / decode_levels_prefixed "
+                          "(width %d): got %s %s" % (w, t[2][:80], t[3][:80]), {"case": li, "impl": a[:2000], "expected": "OK %s %s %s" % (t[1], want1, want2)})
+        elif m.split() != ["OK", t[1]]:
+            rep.tie_broken("RleModel.encode_all differs from carquet_rle_encode_levels: model %s impl %s" % (m[:80], t[1][:80]), li)
+    rep.cov.setdefault("input_distribution", {}).update({"rle_encode_levels": len(lines)})
+
+
 def check_rle_long_runs(rep, tier, rng, drv):
     """Round trips whose run header needs 3, 4 or 5 varint bytes, through all three one-shot decoders (decode_all,
     decode_levels, decode_levels_prefixed); the comparison with the input happens inside the driver."""
@@ -341,6 +434,8 @@ def run(tier):
     check_rle(rep, tier, rng, drv, run_)
     check_rle_long_runs(rep, tier, rng, drv)
     check_rle_encoder_api(rep, tier, rng, drv, run_)
+    ll, li_, lv = check_bit_rw(rep, tier, rng, drv)
+    check_level_encoder(rep, tier, rng, drv, run_, ll, li_, lv)
     try:
         import c11_enc2
     except ImportError:
@@ -367,6 +462,9 @@ def replay(path):
     if err:
         print(err[-2000:])
     t = case.split()
+    if t[0] in ("bitrw", "getfn", "rle_enclvl") and out:
+        exp = j["replay"].get("expected")
+        return 0 if (exp is not None and out[0][:3000] == exp) else 1
     if t[0] == "rle_encops" and out:
         return 0 if out[0].endswith("firstdiff=-1") else 1
     if t[0] == "rle_rtrun" and out:
